@@ -30,6 +30,7 @@ Inductive expr :=
 | EVar (n : name)
 | EBin (o : bop) (a b : expr)       (* compilable when the leaves are *)
 | ESize (a : expr)                  (* #a : an operator node that is never compiled *)
+| ERed (a : expr)                   (* +/a : an adverb chain; compilable (np.add.reduce) when its operand is *)
 | EDef (n : name) (e : expr).       (* n::e *)
 
 Inductive res := Ok (v : val) | Err.
@@ -89,6 +90,23 @@ Definition kl_size (a : val) : val :=
   | VList l => VInt (Z.of_nat (length l))
   end.
 
+(* +/ by the interpreter (Over): an atom is returned as it is, [] stays [], a string is the join of its characters *)
+Definition kl_red (a : val) : val :=
+  match a with
+  | VInt z => VInt z
+  | VStr s => VStr s
+  | VList [] => VList []
+  | VList l => VInt (fold_left Z.add l 0)
+  end.
+
+(* np.add.reduce: the identity 0 on an empty array *)
+Definition py_red (a : val) : option val :=
+  match a with
+  | VInt z => Some (VInt z)
+  | VList l => Some (VInt (fold_left Z.add l 0))
+  | VStr _ => None
+  end.
+
 (* ---- the reference: evaluation by the interpreter alone, no cache of any kind ---- *)
 Fixpoint eval_pure (e : expr) (s : store) : res * store :=
   match e with
@@ -107,6 +125,9 @@ Fixpoint eval_pure (e : expr) (s : store) : res * store :=
   | ESize a =>
       let (ra, s1) := eval_pure a s in
       match ra with Err => (Err, s1) | Ok va => (Ok (kl_size va), s1) end
+  | ERed a =>
+      let (ra, s1) := eval_pure a s in
+      match ra with Err => (Err, s1) | Ok va => (Ok (kl_red va), s1) end
   | EDef n e1 =>
       let (r, s1) := eval_pure e1 s in
       match r with Err => (Err, s1) | Ok v => (Ok v, sset n v s1) end
@@ -120,6 +141,7 @@ Fixpoint admissible (e : expr) (s : store) : bool :=
   | ELit _ => false
   | EVar n => match slookup n s with Some (VInt _) | Some (VList _) => true | _ => false end
   | EBin _ a b => admissible a s && admissible b s
+  | ERed a => admissible a s
   | ESize _ | EDef _ _ => false
   end.
 
@@ -127,6 +149,7 @@ Fixpoint has_var (e : expr) : bool :=
   match e with
   | EVar _ => true
   | EBin _ a b => has_var a || has_var b
+  | ERed a => has_var a
   | _ => false
   end.
 
@@ -143,6 +166,7 @@ Fixpoint operands_ok (e : expr) (s : store) : bool :=
               | _ => false
               end
   | EBin _ a b => operands_ok a s && operands_ok b s
+  | ERed a => operands_ok a s
   | _ => true
   end.
 
@@ -155,6 +179,7 @@ Fixpoint py_run (e : expr) (s : store) : option val :=
                   | Some va, Some vb => py_bin o va vb
                   | _, _ => None
                   end
+  | ERed a => match py_run a s with Some va => py_red va | None => None end
   | _ => None
   end.
 
@@ -243,6 +268,25 @@ Section Eval.
     | ESize a =>
         let (ra, st1) := ev false (p ++ [0%nat]) a st in
         match ra with Err => (Err, st1) | Ok va => (Ok (kl_size va), st1) end
+    | ERed a =>
+        (* eval(): x.is_adverb_chain() — the same memo / compile / try / fall back to chain_adverbs *)
+        let interp (st : istate) :=
+          let (ra, st1) := ev false (p ++ [0%nat]) a st in
+          match ra with Err => (Err, st1) | Ok va => (Ok (kl_red va), st1) end in
+        let (code, st') :=
+          if root then (compile e (vars st), st)
+          else match mlookup (t, p) (memo st) with
+               | Some c => (c, st)
+               | None => let c := compile e (vars st) in
+                         (c, mk_istate (vars st) (cur st) (pcache st) (ccache st) (((t, p), c) :: memo st))
+               end in
+        match code with
+        | Some c => match try_compiled recheck c (vars st') with
+                    | Some v => (Ok v, st')
+                    | None => interp st'
+                    end
+        | None => interp st'
+        end
     | EDef n e1 =>
         let (r, st1) := ev false (p ++ [1%nat]) e1 st in
         match r with
@@ -421,3 +465,27 @@ Definition pure_aop (o : aop) (l : list Z) : list Z :=
   | ORev => rev l
   | OAmend i v => list_set l i v
   end.
+
+(* ---- the Spec of Part B: the same statements over a store of immutable lists ---- *)
+Definition pstore := list (name * list Z).
+
+Fixpoint pget (k : name) (s : pstore) : option (list Z) :=
+  match s with
+  | [] => None
+  | (k', v) :: r => if k =? k' then Some v else pget k r
+  end.
+
+Fixpoint pset (k : name) (v : list Z) (s : pstore) : pstore :=
+  match s with
+  | [] => [(k, v)]
+  | (k', v') :: r => if k =? k' then (k', v) :: r else (k', v') :: pset k v r
+  end.
+
+Definition pure_exec (s : pstore) (st : stmt) : pstore :=
+  match st with
+  | SLit d l => pset d l s
+  | SOp d o src => match pget src s with Some l => pset d (pure_aop o l) s | None => s end
+  | SCopy d src => match pget src s with Some l => pset d l s | None => s end
+  end.
+
+Definition pure_exec_all (s : pstore) (p : list stmt) : pstore := fold_left pure_exec p s.
